@@ -21,26 +21,27 @@ import (
 
 // Operation kinds. All go through the public API of go-openapi/validate.
 const (
-	KAgainst    = "against"     // AgainstSchema(schema, data, registry)
-	KSchemaRec  = "schema_rec"  // NewSchemaValidator(..., WithRecycleValidators(true)).Validate(data), used once
-	KSchemaNR   = "schema_nr"   // NewSchemaValidator(...).Validate(data), not recycling (still draws pooled results)
-	KParam      = "param"       // NewParamValidator(param, registry[, recycle]).Validate(typed value)
-	KHeader     = "header"      // NewHeaderValidator(name, header, registry[, recycle]).Validate(typed value)
-	KSpec       = "spec"        // NewSpecValidator(doc.Schema(), registry) [+SetContinueOnErrors] .Validate(doc)
-	KSpecOne    = "spec_one"    // validate.Spec(doc, registry) (package defaults)
-	KSetCOE     = "set_coe"     // validate.SetContinueOnErrors(v)
-	KPattern    = "pattern"     // validate.Pattern(path, in, data, pattern)
-	KEnum       = "enum"        // validate.Enum(path, in, data, enum)
-	KFormatOf   = "formatof"    // validate.FormatOf(path, in, format, data, registry)
-	KLLSchema   = "ll_schema"   // long-lived non-recycling schema validator #LL .Validate(data)
-	KLLParam    = "ll_param"    // long-lived param validator #LL .Validate(typed value)
-	KLLHeader   = "ll_header"   // long-lived header validator #LL .Validate(typed value)
-	KNewSpecVal = "new_specval" // NewSpecValidator only: captures the package defaults (C05 register history)
+	KAgainst    = "against"       // AgainstSchema(schema, data, registry)
+	KSchemaRec  = "schema_rec"    // NewSchemaValidator(..., WithRecycleValidators(true)).Validate(data), used once
+	KSchemaNR   = "schema_nr"     // NewSchemaValidator(...).Validate(data), not recycling (still draws pooled results)
+	KParam      = "param"         // NewParamValidator(param, registry[, recycle]).Validate(typed value)
+	KHeader     = "header"        // NewHeaderValidator(name, header, registry[, recycle]).Validate(typed value)
+	KSpec       = "spec"          // NewSpecValidator(doc.Schema(), registry) [+SetContinueOnErrors] .Validate(doc)
+	KSpecOne    = "spec_one"      // validate.Spec(doc, registry) (package defaults)
+	KSetCOE     = "set_coe"       // validate.SetContinueOnErrors(v)
+	KPattern    = "pattern"       // validate.Pattern(path, in, data, pattern)
+	KEnum       = "enum"          // validate.Enum(path, in, data, enum)
+	KFormatOf   = "formatof"      // validate.FormatOf(path, in, format, data, registry)
+	KLLSchema   = "ll_schema"     // long-lived non-recycling schema validator #LL .Validate(data)
+	KLLParam    = "ll_param"      // long-lived param validator #LL .Validate(typed value)
+	KLLHeader   = "ll_header"     // long-lived header validator #LL .Validate(typed value)
+	KFlood      = "pattern_flood" // LL distinct valid patterns (prefix Str) through validate.Pattern: more than any plausible bound of the regexp cache
+	KNewSpecVal = "new_specval"   // NewSpecValidator only: captures the package defaults (C05 register history)
 )
 
 var kindNums = map[string]uint16{
 	KAgainst: 1, KSchemaRec: 2, KSchemaNR: 3, KParam: 4, KHeader: 5, KSpec: 6, KSpecOne: 7, KSetCOE: 8,
-	KPattern: 9, KEnum: 10, KFormatOf: 11, KLLSchema: 12, KLLParam: 13, KLLHeader: 14, KNewSpecVal: 15,
+	KPattern: 9, KEnum: 10, KFormatOf: 11, KLLSchema: 12, KLLParam: 13, KLLHeader: 14, KNewSpecVal: 15, KFlood: 17,
 }
 
 var kindNames = func() map[uint16]string {
@@ -78,6 +79,7 @@ type Op struct {
 	YAML         bool      `json:"yaml,omitempty"`          // feed the document as YAML-converted bytes
 	Reorder      bool      `json:"reorder,omitempty"`       // feed the document with all object members in reverse order
 	SharedMeta   bool      `json:"shared_meta,omitempty"`   // hand the spec validator the one Swagger meta-schema object of this run (expanded in place by earlier validations, as a caller keeping one schema around would have it) instead of the document's own fresh copy
+	ReuseSV      bool      `json:"reuse_sv,omitempty"`      // validate with the run's one long-lived SpecValidator object (created at its first use) instead of a new one
 	FromFile     bool      `json:"from_file,omitempty"`     // the document is written to a file and loaded with loads.Spec(path): the document then has a file path, and the validator resolves $ref through its file-based branches
 	ReuseSchema  bool      `json:"reuse_schema,omitempty"`  // hand the library the very *spec.Schema object an earlier operation of this run parsed from the same text (a caller keeping its schema around)
 	ReuseDoc     bool      `json:"reuse_doc,omitempty"`     // validate the very *loads.Document an earlier operation of this run loaded (same bytes, same variant)
@@ -288,7 +290,10 @@ type Env struct {
 	Retained     []retained // values handed to the caller earlier; re-rendered at the end of the history
 	Keep         bool       // retain returned values
 	LastReg      *faultRegistry
-	meta         *spec.Schema // the run's Swagger meta-schema object (operations with SharedMeta)
+	meta         *spec.Schema            // the run's Swagger meta-schema object (operations with SharedMeta)
+	sv           *validate.SpecValidator // the run's long-lived SpecValidator (operations with ReuseSV)
+	svReg        *faultRegistry
+	svReuses     int
 	metaUses     int
 	schemas      map[string]*spec.Schema // schema objects parsed by operations with ReuseSchema
 	schemaReuses int
@@ -550,8 +555,30 @@ func (env *Env) exec(op *Op) Outcome {
 			env.metaUses++
 			meta = env.meta
 		}
-		sv := validate.NewSpecValidator(meta, op.registry(env))
-		captured := sv.Options.ContinueOnErrors
+		var sv *validate.SpecValidator
+		capturedTxt := ""
+		if op.ReuseSV && op.COE != nil {
+			// one SpecValidator object serving several validations (of one or several documents)
+			if env.sv == nil {
+				env.svReg = &faultRegistry{Registry: strfmt.Default}
+				env.sv = validate.NewSpecValidator(meta, env.svReg)
+			} else {
+				env.svReuses++
+			}
+			env.svReg.calls, env.svReg.fired, env.svReg.panicAt = 0, false, 0
+			if op.Fault != nil {
+				if op.Fault.Kind == "checker-panic" {
+					env.svReg.panicAt = op.Fault.K
+				}
+				env.LastReg = env.svReg
+			}
+			defer func() { env.svReg.panicAt = 0 }()
+			sv = env.sv
+			capturedTxt = "reused"
+		} else {
+			sv = validate.NewSpecValidator(meta, op.registry(env))
+			capturedTxt = fmt.Sprint(sv.Options.ContinueOnErrors)
+		}
 		if op.COE != nil {
 			sv.SetContinueOnErrors(*op.COE)
 		}
@@ -559,7 +586,7 @@ func (env *Env) exec(op *Op) Outcome {
 		o := resultOutcome(errs, false)
 		o.Match = 0 // match counts of a spec validation are not an observable the properties name
 		// the separately returned warnings must be exactly the warnings attached to the main result (C10)
-		o.Extra = fmt.Sprintf("captured_coe=%v warnings2=%s", captured, strings.Join(allMsgs(warns), " || "))
+		o.Extra = fmt.Sprintf("captured_coe=%s warnings2=%s", capturedTxt, strings.Join(allMsgs(warns), " || "))
 		env.retain(op, func() string {
 			x := resultOutcome(errs, false)
 			x.Match = 0
@@ -576,6 +603,18 @@ func (env *Env) exec(op *Op) Outcome {
 		return Outcome{Valid: true, Extra: fmt.Sprintf("captured_coe=%v", sv.Options.ContinueOnErrors)}
 	case KSetCOE:
 		validate.SetContinueOnErrors(*op.COE)
+		return Outcome{Valid: true}
+	case KFlood:
+		bad := 0
+		for i := 0; i < op.LL; i++ {
+			subj := fmt.Sprintf("%s%dz", op.Str, i)
+			if err := validate.Pattern("p", "body", subj, "^"+subj+"$"); err != nil {
+				bad++
+			}
+		}
+		if bad > 0 {
+			return Outcome{Valid: false, Errors: []string{fmt.Sprintf("%d of %d distinct patterns did not match their own subject", bad, op.LL)}}
+		}
 		return Outcome{Valid: true}
 	case KPattern:
 		err := validate.Pattern(op.Path, "body", op.Str, op.Pattern)
